@@ -90,6 +90,7 @@ def import_under(host):
         if fake:
             sys.modules['errno'], sys.modules['signal'], sys.modules['socket'] = fake
         importlib.import_module('pykdebugparser.traces_parser')
+        importlib.import_module('pykdebugparser.pykdebugparser')      # the formatter (colour path) is imported under the host too
     finally:
         for k, v in saved.items():
             sys.modules[k] = v
@@ -192,6 +193,25 @@ def renderings(rnd, pools=None, flood=0):
                 out[('errno_pipe_after_flood', code)] = tokenize(t)[2]
             except Exception as ex:
                 out[('errno_after_flood', code)] = 'RAISED:' + type(ex).__name__
+    # the COLOURED lines of the formatter (the library's and the command line's default): escape sequences included, they are
+    # a function of the dump
+    try:
+        import io as _io
+        from .pipeline import Dump
+        from pykdebugparser.pykdebugparser import PyKdebugParser
+        w2 = pr.w
+        stream = []
+        for code in range(0, 111):
+            stream += [w2.sys('BSC_read', 1, 1, (3, 4, 5, 6)), w2.sys('BSC_read', 2, 1, (code, 1, 2, 3))]
+        for sg in range(1, 32):
+            stream += [w2.sys('BSC_kill', 1, 1, (77, sg, 0, 0)), w2.sys('BSC_kill', 2, 1, (0, 0, 0, 0))]
+        d = Dump(w2, stream, [(1, 5, 'proc')])
+        pk = PyKdebugParser()
+        pk.color = True
+        for i, ln in enumerate(pk.formatted_traces(_io.BytesIO(d.blob), w2.codes)):
+            out[('coloured-line', i)] = ln
+    except Exception as ex:
+        out[('coloured-line', -1)] = 'RAISED:' + type(ex).__name__
     for lvl in (1, 6, 0xffff):
         for name in ('BSC_setsockopt', 'BSC_getsockopt'):
             out[('level:' + name, lvl)] = param(name, [3, lvl, 0x80, 6], 1)
